@@ -158,7 +158,7 @@ pub fn mutate_redirects(rng: &mut Rng, g: &mut ModuleGraph, known: &[String]) ->
 }
 
 pub fn gen_graph(rng: &mut Rng, tier: Tier) -> (World, Vec<String>, BuildCfg, ModuleGraph, Vec<String>, usize) {
-  let cfg = GenCfg { max_modules: if tier == Tier::Quick { 7 } else { 10 }, redirects: true, faults: true, same_attr_proviso: false };
+  let cfg = GenCfg { assets: false, max_modules: if tier == Tier::Quick { 7 } else { 10 }, redirects: true, faults: true, same_attr_proviso: false };
   let (world, roots) = gen_world(rng, &cfg);
   let mut bcfg = BuildCfg {
     kind: *rng.pick(&[0u8, 0, 0, 1, 2]),
